@@ -37,3 +37,7 @@ package store
 //@   loop 1
 //@     invariant wf: forall k int :: 0 <= k && k < len(ranges) ==> ranges[k].Low >= 0 && (ranges[k].Hi == 0 || ranges[k].Hi > ranges[k].Low)
 //@     invariant idx: 0 <= #idx && #idx <= len(dmsgs)
+
+// Loading a topic row reports the stored high-water mark.
+//@ func (m TopicsPersistenceInterface) Get(topic string) (stopic *types.Topic, err error)
+//@   ensures [C01] err == nil && stopic != nil ==> stopic.SeqId == hwm[topic]
